@@ -66,14 +66,18 @@ def run_cases(binp, cases, setup=''):
             f.write('\n'.join(prog) + '\n')
             path = f.name
         timed_out = False
-        pr = subprocess.Popen([binp, path], stdout=subprocess.PIPE, stderr=subprocess.DEVNULL, text=True)
+        pr = subprocess.Popen([binp, path], stdout=subprocess.PIPE, stderr=subprocess.PIPE, text=True)
         try:
-            so, _ = pr.communicate(timeout=int(os.environ.get('VERIF_CASE_TIMEOUT', '120')))
+            so, se = pr.communicate(timeout=int(os.environ.get('VERIF_CASE_TIMEOUT', '120')))
         except subprocess.TimeoutExpired:
             pr.kill()
-            so, _ = pr.communicate()
+            so, se = pr.communicate()
             timed_out = True
         os.unlink(path)
+        if not so.strip() and 'PARSE ERROR' in (se or '')[:400]:
+            # the whole program is parsed before anything runs: one unparseable case would make every case look like a crash.
+            # That is a problem of the grid (or of the parser under test), not a crash of the evaluated cases: refuse to judge.
+            raise RuntimeError('grid program does not parse: ' + ' '.join((se or '').split())[:300])
 
         class R:
             stdout = so
@@ -599,6 +603,27 @@ def suite_C12():
                                  ('a, b', '[a, b]', '"xy"', '["x", "y"]'), ('a, ...b, c', '[a, b, c]', '1 til 6', '[1, [2, 3, 4], 5]')]:
         cases.append(('sp%d' % k, '(\\ -> (%s := %s; %s))()' % (pat, val, names), exp, dict(pattern=pat, value=val, what='sequence pattern with a splat')))
         k += 1
+    # pattern forms of the property statement: constructors inverted, literals by ==, or/and, nesting, defaults, annotations, catch, for, lambda
+    for prog, exp in [('h .+ t := [1, 2, 3]; [h, t]', '[1, [2, 3]]'), ('xs +. x := [1, 2, 3]; [xs, x]', '[[1, 2], 3]'), ('h .+ t := []; [h, t]', 'ERR'),
+                      ('xs +. x := []; [xs, x]', 'ERR'), ('h .+ t := [7]; [h, t]', '[7, []]'), ('n + 1 := 5; n', '4'), ('-x := 5; x', '-5'), ('n * 2 := 10; n', '5'),
+                      ('n * 2 := 5; n', 'ERR'), ('a / b := 3/4; [a, b]', '[3, 4]'), ('a / b := 3; [a, b]', '[3, 1]'), ('a / b := (0-6)/4; [a, b]', '[-3, 2]'),
+                      ('switch (5) case 1 < _ < 9 -> "in" case _ -> "out"', 'in'), ('switch (9) case 1 < _ < 9 -> "in" case _ -> "out"', 'out'),
+                      ('switch (1) case 1 < _ < 9 -> "in" case _ -> "out"', 'out'), ('switch (5) case 1 < x < 9 -> x case _ -> "out"', '5'),
+                      ('switch (3) case 1 or 3 -> "hit" case _ -> "miss"', 'hit'), ('switch (2) case 1 or 3 -> "hit" case _ -> "miss"', 'miss'),
+                      ('switch ([1, 2]) case p and (a, b) -> [p, a, b] case _ -> "miss"', '[[1, 2], 1, 2]'), ('switch ("a") case "a" -> 1 case _ -> 2', '1'),
+                      ('switch (2.0) case 1 -> "one" case 2 -> "two" case _ -> "other"', 'two'),
+                      ('y := 3; switch (3) case literally y -> "same" case _ -> "other"', 'same'), ('y := 3; switch (4) case literally y -> "same" case _ -> "other"', 'other'),
+                      ('(a, (b, c)), d := [[1, [2, 3]], 4]; [a, b, c, d]', '[1, 2, 3, 4]'), ('(a, (b, c)), d := [[1, [2]], 4]; [a, b, c, d]', 'ERR'),
+                      ('(\\a, b = 9 -> [a, b])(1)', '[1, 9]'), ('(\\a, b = 9 -> [a, b])(1, 2)', '[1, 2]'), ('(\\a, b = 9 -> [a, b])()', 'ERR'),
+                      ('(a: int), (b: str) = [1, "x"]; [a, b]', '[1, "x"]'), ('(a: int), (b: str) = [1, 2]; [a, b]', 'ERR'),
+                      ('switch (7) case 1 -> 1 case 2 -> 2', 'ERR'), ('switch (2) case 1 -> "a" case 2 -> "b" case 2 -> "c"', 'b'),
+                      ('VerifFoo(m, n) := VerifFoo(3, 4); [m, n]', '[3, 4]'), ('VerifFoo(m, n) := VerifBar(3, 4); [m, n]', 'ERR'),
+                      ('try throw [1, 2] catch a, b -> a + b', '3'), ('try (try throw 5 catch a, b -> a + b) catch e -> ["outer", e]', '["outer", 5]'),
+                      ('for (a, b <- [[1, 2], [3, 4]]) yield a * b', '[2, 12]'), ('for (a, b <- [[1, 2], [3]]) yield a * b', 'ERR'),
+                      ('(\\(a, b), c -> a + b + c)([1, 2], 3)', '6'), ('_, b := [1, 2]; b', '2'), ('a, b := "xy"; [a, b]', '["x", "y"]'),
+                      ('a, b := {1: 2, 3: 4}; sort([a, b])', '[1, 3]'), ('a, b := V(1, 2); a + b', '3')]:
+        cases.append(('pf%d' % k, '(\\ -> (%s))()' % prog, exp, dict(program=prog, what='pattern form')))
+        k += 1
     # struct construction: arguments first, then the defaults of the remaining fields; a missing field without default raises
     for expr, exp in [('q(VerifBar(1))', '7'), ('p(VerifBar(1))', '1'), ('q(VerifBar(1, 2))', '2'), ('VerifBar()', 'ERR'), ('VerifFoo(1)', 'ERR'), ('b(VerifFoo(1, 2))', '2'),
                       ('VerifBar(1) is VerifBar', '1'), ('VerifBar(1) is VerifFoo', '0'), ('(\\ -> (VerifBar(x, y) := VerifBar(3); [x, y]))()', '[3, 7]'),
@@ -679,6 +704,55 @@ def suite_C16():
         if n >= 0:
             cases.append(('j%d' % k, 'int_radix(str_radix(%s, %d), %d)' % (lit(n), b, b), str(n), dict(n=n, base=b, what='round trip')))
             k += 1
+    # every byte value through the binary-to-text codecs and gzip; malformed input raises
+    import zlib
+    for bs in [list(range(0, 256)), list(range(255, -1, -1)), [0] * 70, [7, 7, 7, 200] * 20]:
+        lst = 'bytes(%s)' % nlit(bs)
+        cases.append(('xa%d' % k, 'hex_encode(%s)' % lst, bytes(bs).hex(), dict(n_bytes=len(bs), what='hex_encode of every byte value')))
+        k += 1
+        cases.append(('xb%d' % k, 'base64_encode(%s)' % lst, base64.b64encode(bytes(bs)).decode(), dict(n_bytes=len(bs), what='base64_encode of every byte value')))
+        k += 1
+        for pair in ['hex_decode(hex_encode(%s))', 'base64_decode(base64_encode(%s))', 'decompress(compress(%s))']:
+            cases.append(('xr%d' % k, (pair % lst) + ' == ' + lst, '1', dict(n_bytes=len(bs), what=pair.split('(')[0] + ' round trip')))
+            k += 1
+    for bad in ['hex_decode("zz")', 'hex_decode("abc")', 'base64_decode("!!!")', 'utf8_decode(bytes([255, 254]))', 'utf8_decode(bytes([195]))', 'decompress(bytes([1, 2, 3]))',
+                'chr(1114112)', 'chr(55296)', 'chr(57343)', 'chr(0 - 1)', 'ord("ab")', 'ord("")', 'int("4 2")', 'int("")', 'int("1.5")', 'int_radix("12", 1)', 'str_radix(5, 37)',
+                'json_decode("[")', 'json_decode("{1: 2}")', 'rational("1/0")', 'rational("abc")', 'rational("1.2.3")']:
+        cases.append(('xe%d' % k, bad, 'ERR', dict(expr=bad, what='malformed input raises')))
+        k += 1
+    cases.append(('xh%d' % k, 'list(hex_decode("AbCd"))', '[171, 205]', dict(what='hex_decode accepts either case')))
+    k += 1
+    for cp in [0, 9, 10, 127, 128, 255, 256, 0x7ff, 0x800, 0xd7ff, 0xe000, 0xffff, 0x10000, 0x10ffff]:
+        cases.append(('xc%d' % k, 'ord(chr(%d))' % cp, str(cp), dict(code_point=cp, what='chr/ord at encoding boundaries')))
+        k += 1
+        cases.append(('xu%d' % k, 'list(utf8_encode(chr(%d)))' % cp, nlit(list(chr(cp).encode('utf-8'))), dict(code_point=cp, what='utf8_encode at encoding boundaries')))
+        k += 1
+        cases.append(('xv%d' % k, 'utf8_decode(utf8_encode(chr(%d))) == chr(%d)' % (cp, cp), '1', dict(code_point=cp, what='utf8 round trip at encoding boundaries')))
+        k += 1
+    for st in ['h\u00e9z\u4e16', 'na\u00efve caf\u00e9', '\U0001f600 ok']:
+        py = st.encode().decode('unicode_escape') if False else st
+        cases.append(('xs%d' % k, 'list(utf8_encode("%s"))' % py, nlit(list(py.encode('utf-8'))), dict(text=py, what='utf8_encode of non-ASCII text')))
+        k += 1
+        cases.append(('xt%d' % k, 'utf8_decode(utf8_encode("%s")) == "%s"' % (py, py), '1', dict(text=py, what='utf8 round trip of non-ASCII text')))
+        k += 1
+        cases.append(('xj%d' % k, 'json_decode(json_encode(["%s", {"%s": 1}])) == ["%s", {"%s": 1}]' % (py, py, py, py), '1', dict(text=py, what='json round trip of non-ASCII text')))
+        k += 1
+        cases.append(('xq%d' % k, 'eval(repr("%s")) == "%s"' % (py, py), '1', dict(text=py, what='repr evaluates back')))
+        k += 1
+    # JSON-shaped values: encode/decode round trip, literal and repr agree with json_decode
+    for v in ['null', '[]', '{}', '[1, "a", null, {"k": [2.5]}]', '{"a": [1, 2.5, "x", null], "b": {"c": []}}', '[[[]]]', '[0 - 5, 9007199254740993, 0.5, 1e21]',
+              '["q\\"uote", "back\\\\slash", "tab\\t", "nl\\n"]', '{"": 0}']:
+        cases.append(('xk%d' % k, 'json_decode(json_encode(%s)) == %s' % (v, v), '1', dict(value=v, what='json round trip')))
+        k += 1
+        cases.append(('xl%d' % k, 'eval(repr(%s)) == %s' % (v, v), '1', dict(value=v, what='repr evaluates back')))
+        k += 1
+        cases.append(('xm%d' % k, 'eval(json_encode(%s)) == json_decode(json_encode(%s))' % (v, v), '1', dict(value=v, what='JSON text read as a literal equals json_decode')))
+        k += 1
+    for txt, exp in [('12', '12'), ('-42', '-42'), ('+7', '7'), ('123456789012345678901234567890', '123456789012345678901234567890'), ('007', '7')]:
+        cases.append(('xi%d' % k, 'int("%s")' % txt, exp, dict(text=txt, what='int(s)')))
+        k += 1
+        cases.append(('xn%d' % k, 'number("%s")' % txt, exp, dict(text=txt, what='number(s)')))
+        k += 1
     # reading: digits at or above the base are refused, either letter case is accepted, bytes read like the same text
     for txt, b, want in [('9', 8, 'ERR'), ('2', 2, 'ERR'), ('g', 16, 'ERR'), ('z', 35, 'ERR'), ('1_0', 10, 'ERR'), ('-5', 10, 'ERR'), ('FF', 16, '255'), ('ff', 16, '255'),
                          ('Zz', 36, str(35 * 36 + 35)), ('777', 8, '511'), ('', 10, '0'), ('000', 7, '0')]:
